@@ -216,6 +216,7 @@ fn run_c14(t: &mut Tape, _tier: Tier) -> RunOut {
     mix.rotate_one_in = 10;
     mix.exec.spurious_one_in = 10;
     mix.exec.cancel_one_in = 25;
+    mix.control_twin = true;
     mix.defect_kinds = faults::DEFECT_KINDS.to_vec();
     mix.max_defects = 2;
     mix.defect_p10 = 3;
@@ -360,7 +361,7 @@ pub fn registry() -> Vec<Profile> {
             id: "C14",
             title: "provider protocol",
             run: run_c14,
-            required: &["exec_concurrent_tasks", "prov_pending_ge_2", "defective_request_with_provider_watching", "liveness_checked", "prov_keystore_refusal"],
+            required: &["exec_concurrent_tasks", "prov_pending_ge_2", "defective_request_with_provider_watching", "liveness_checked", "prov_keystore_refusal", "control_twin_compared", "prov_err[ExpiredToken]", "prov_err[MissingAuthenticationToken]", "prov_foreign[io::Error]", "prov_foreign[String]"],
             rule: "1-6 concurrent tasks (each a sequence of validations reusing one provider instance; all instances clones of one key store) on the seeded executor; provider readiness/answer pending 0-5 polls with immediate, timer or withheld wake-ups, every SignatureError kind and five foreign error kinds at readiness or answer, key rotation, spurious polls, cancellation at any poll; requests valid or defective at any rule; non-trivial when a provider/executor fault fired; distinct interleavings = distinct hashes of the (task, seam, result) sequence",
             quick_secs: 25,
             thorough_secs: 360,
